@@ -86,16 +86,22 @@ var libSpaces = []*libSpace{
 	{
 		Name: "prophotorgb", Ref: refcolor.ProPhoto,
 		From8: prophotorgb.From8Bit, From16: prophotorgb.From16Bit, To8: prophotorgb.To8Bit, To16: prophotorgb.To16Bit,
-		FromNRGBA:   func(c color.NRGBA) (linear.RGB, float32) { x, a := prophotorgb.ColorFromNRGBA(c); return x.RGB, a },
-		FromRGBA:    func(c color.RGBA) (linear.RGB, float32) { x, a := prophotorgb.ColorFromRGBA(c); return x.RGB, a },
-		FromEncoded: func(c color.Color) (linear.RGB, float32) { x, a := prophotorgb.ColorFromEncodedColor(c); return x.RGB, a },
-		FromLinearC: func(c color.Color) (linear.RGB, float32) { x, a := prophotorgb.ColorFromLinearColor(c); return x.RGB, a },
-		ToNRGBA:     func(c linear.RGB, a float32) color.NRGBA { return prophotorgb.Color{RGB: c}.ToNRGBA(a) },
-		ToRGBA:      func(c linear.RGB, a float32) color.RGBA { return prophotorgb.Color{RGB: c}.ToRGBA(a) },
-		ToRGBA64:    func(c linear.RGB, a float32) color.RGBA64 { return prophotorgb.Color{RGB: c}.ToRGBA64(a) },
-		ToXYZ:       func(c linear.RGB) ciexyz.Color { return prophotorgb.ColorFromLinear(c.R, c.G, c.B).ToXYZ() },
-		FromXYZ:     func(c ciexyz.Color) linear.RGB { return prophotorgb.ColorFromXYZ(c).RGB },
-		Linearise:   prophotorgb.LineariseColor, Encode: prophotorgb.EncodeColor,
+		FromNRGBA: func(c color.NRGBA) (linear.RGB, float32) { x, a := prophotorgb.ColorFromNRGBA(c); return x.RGB, a },
+		FromRGBA:  func(c color.RGBA) (linear.RGB, float32) { x, a := prophotorgb.ColorFromRGBA(c); return x.RGB, a },
+		FromEncoded: func(c color.Color) (linear.RGB, float32) {
+			x, a := prophotorgb.ColorFromEncodedColor(c)
+			return x.RGB, a
+		},
+		FromLinearC: func(c color.Color) (linear.RGB, float32) {
+			x, a := prophotorgb.ColorFromLinearColor(c)
+			return x.RGB, a
+		},
+		ToNRGBA:   func(c linear.RGB, a float32) color.NRGBA { return prophotorgb.Color{RGB: c}.ToNRGBA(a) },
+		ToRGBA:    func(c linear.RGB, a float32) color.RGBA { return prophotorgb.Color{RGB: c}.ToRGBA(a) },
+		ToRGBA64:  func(c linear.RGB, a float32) color.RGBA64 { return prophotorgb.Color{RGB: c}.ToRGBA64(a) },
+		ToXYZ:     func(c linear.RGB) ciexyz.Color { return prophotorgb.ColorFromLinear(c.R, c.G, c.B).ToXYZ() },
+		FromXYZ:   func(c ciexyz.Color) linear.RGB { return prophotorgb.ColorFromXYZ(c).RGB },
+		Linearise: prophotorgb.LineariseColor, Encode: prophotorgb.EncodeColor,
 		LineariseImage: prophotorgb.LineariseImage, EncodeImage: prophotorgb.EncodeImage,
 		PR: func() ciexyy.Color { return prophotorgb.PrimaryRed }, PG: func() ciexyy.Color { return prophotorgb.PrimaryGreen },
 		PB: func() ciexyy.Color { return prophotorgb.PrimaryBlue }, White: func() ciexyy.Color { return prophotorgb.StandardWhitePoint },
